@@ -1,6 +1,6 @@
 import DdsModel.HeaderTables
 import DdsModel.Drv.C02
-namespace Dds.Drv
+namespace Dds.Drv.C09
 open Dds
 
 def fmtOptNat : Option Nat → String
@@ -229,4 +229,8 @@ def runC09 (line : String) : String :=
   | "TM" :: t => runTM t
   | _ => "bad-case"
 
+end Dds.Drv.C09
+
+namespace Dds.Drv
+def runC09 : String → String := C09.runC09
 end Dds.Drv
